@@ -17,6 +17,7 @@ def lifeCtorKey : List Nat := [1]
 def lifeCtorNo : List Nat := []
 def lifeDtorKey : List Nat := [0, 1, 3, 4, 0]
 def lifeDtorNo : List Nat := [3, 4]
+def lifeSwapKey : Bool := true
 def lifeTlsLookup : Bool := true
 
 end TbbVerif.Generated.C19
